@@ -143,6 +143,7 @@ fn main() {
         rng: Rng::new(seed),
         cases_run: 0,
         registry,
+        trace: std::env::var_os("WITNESS_TRACE").is_some(),
     };
 
     // everything below runs under catch so that a harness error becomes a
